@@ -181,18 +181,15 @@ def run_check(prop: Prop, tier: str, seed: int) -> int:
                 serial_idx.append(i)
         except Exception as e:
             harness_errors.append((c, {"harness_error": f"serialise: {type(e).__name__}: {e}"}))
-    if proof.get("broken", "").startswith("theories/Properties") or proof_ok or (
-        core.COQ / "theories" / "Corr" / f"{pid}.vo"
-    ).exists():
-        try:
-            mm, coq_errors, cstats = core.run_case_files(
-                pid, prop.imports, prop.case_type, prop.check_fn, serial
-            )
-            mism = sorted(set(serial_idx[i] for i in mm))
-        except Exception as e:
-            coq_errors = [("run_case_files", f"{type(e).__name__}: {e}")]
-    else:
-        coq_errors = [("build", "model not built; correspondence not evaluated")]
+    # evaluated even when a proof is broken (the build keeps going past the broken file, so the model and the
+    # comparison functions are compiled whenever they can be): a failing input is then searched for as usual
+    try:
+        mm, coq_errors, cstats = core.run_case_files(
+            pid, prop.imports, prop.case_type, prop.check_fn, serial
+        )
+        mism = sorted(set(serial_idx[i] for i in mm))
+    except Exception as e:
+        coq_errors = [("run_case_files", f"{type(e).__name__}: {e}")]
 
     # 4. verdict
     violations = 0
